@@ -334,7 +334,7 @@ impl Explorer {
             let rec = &run.rec;
             // determinism check
             let mut bound = item.bound;
-            if !prefix_matches(&rec.pc, &item.expected) {
+            if !prefix_matches(&rec.pc, &item.expected, &rec.vars) {
                 divergences += 1;
                 bound = 0;
             }
@@ -566,21 +566,23 @@ impl Explorer {
 
 /// the run reproduced the expected prefix: identical atoms, except that the last (flipped) one may be
 /// refined by a multiway test (expected `p >= 0`, observed `p == 0` or `p > 0`, ...)
-fn prefix_matches(pc: &[crate::ctx::Atom], expected: &[crate::ctx::Atom]) -> bool {
-    use crate::ctx::Rel::*;
+fn prefix_matches(pc: &[crate::ctx::Atom], expected: &[crate::ctx::Atom], vars: &[crate::ctx::VarInfo]) -> bool {
     if expected.is_empty() {
         return true;
     }
     let n = expected.len();
-    if pc.len() < n || pc[..n - 1] != expected[..n - 1] {
+    if pc.len() + 1 < n || pc.len() < n - 1 || pc[..n - 1] != expected[..n - 1] {
         return false;
     }
-    let (a, e) = (&pc[n - 1], &expected[n - 1]);
-    if a == e {
-        return true;
+    // the flipped condition itself: the run may record a refinement of it (multiway tests, a different
+    // concretisation value); what matters is that it holds on this run's values
+    let e = &expected[n - 1];
+    let mut vs = BTreeSet::new();
+    e.p.vars(&mut vs);
+    if vs.iter().any(|&v| v as usize >= vars.len()) {
+        return false;
     }
-    a.p == e.p
-        && matches!((a.rel, e.rel), (Eq, Ge) | (Gt, Ge) | (Eq, Le) | (Lt, Le) | (Gt, Ne) | (Lt, Ne) | (Gt, Gt) | (Lt, Lt))
+    e.rel.holds(&e.p.eval(&|v| vars[v as usize].value.clone()))
 }
 
 fn hash_atoms(pc: &[crate::ctx::Atom], n: usize) -> u64 {
